@@ -12,8 +12,8 @@ CHECK = {
            'a state is the concrete registry layout plus the shadow ledger; distinct_nontrivial = states with at least one displaced registry entry; '
            'ladders take the registry through sizes 53..389 with colliding strides'),
   'bounds': {
-    'quick': '4 arena addresses to fixpoint (gcc), 3 under ASan; ladders to 250 objects x 6 strides x 3 delete orders x 3 root patterns',
-    'thorough': '5 arena addresses (gcc; global deadline 14 min, evidence says whether the fixpoint was reached), 4 under ASan to fixpoint; ladders to 300 objects',
+    'quick': '4 arena addresses to fixpoint and 5 addresses (two of them wrapping) to depth 8 (gcc), 3 under ASan; ladders to 250 objects x 6 strides x 3 delete orders x 3 root patterns',
+    'thorough': '5 arena addresses to fixpoint, 6 addresses under a global deadline of 14 min (the evidence says whether the fixpoint was reached), 4 under ASan to fixpoint; ladders to 300 objects',
   },
   'assumptions': [
     'reclamation is observed through the destructor ledger, never predicted (conservative collection may retain)',
@@ -23,12 +23,14 @@ CHECK = {
   'instances': {
     'quick': [
       G('addr4', 'base', 'naddr=4'),
+      G('addr5-d8', 'base', 'naddr=5', 'depth=8'),
       G('addr3-asan', 'asan', 'naddr=3'),
       G('ladder', 'base', 'mode=ladder', 'ladder_n=250'),
       G('ladder-asan', 'asan', 'mode=ladder', 'ladder_n=120'),
     ],
     'thorough': [
-      G('addr5', 'base', 'naddr=5', 'deadline=840'),
+      G('addr5', 'base', 'naddr=5'),
+      G('addr6', 'base', 'naddr=6', 'deadline=840'),
       G('addr4-asan', 'asan', 'naddr=4'),
       G('ladder', 'base', 'mode=ladder', 'ladder_n=300'),
       G('ladder-asan', 'asan', 'mode=ladder', 'ladder_n=250'),
